@@ -44,6 +44,11 @@ KEYWORD_PREFIX_DOCS = [
 ]
 
 
+# layouts of the document without declarations: blanks only.  The real parser rejects them (finding F-15b, class
+# blank-only-document, fam/idl/FINDINGS.md); reported through known_findings.json until the parser is repaired
+BLANK_ONLY_DOCS = [" ", "\n", "// c\n", "# licence", "/* x */", " \t\r\n// a\n/* b */\n", "//"]
+
+
 def gen_cases(rng, tier):
     """list of (case_line, expected canon or None, kind, group) ; group ties the layouts of one document together"""
     q = tier == "quick"
@@ -52,6 +57,8 @@ def gen_cases(rng, tier):
     cases = []
     for t, c in KEYWORD_PREFIX_DOCS:
         cases.append(("file " + ig.hx(t), c, "keyword-prefix", None))
+    for t in BLANK_ONLY_DOCS:
+        cases.append(("file " + ig.hx(t), "(file -)", "blank-only", None))
     for i in range(n_docs):
         seed = rng.randrange(1 << 62)
         # the same document (same structural choices: the document generator is driven by its own seed) under
@@ -151,13 +158,15 @@ def run(chk, replay=None):
     t0 = time.time()
     model = core.run_lines(FAM.runner, lines, timeout=1500) if os.path.exists(FAM.runner) else None
     chk.cov["wall_model"] = round(time.time() - t0, 2)
-    failing, mism, src_model = [], [], []
+    failing, mism, src_model, known = [], [], [], []
     groups = {}
     for prof, b in bins:
         impl = core.run_lines(b, lines, timeout=900)
         for idx, ((c, canon, kind, grp), o) in enumerate(zip(cases, impl)):
             why = oracle(o, canon)
-            if why:
+            if why and kind == "blank-only":
+                known.append((c, canon, kind, "%s [%s build]" % (why, prof), o))
+            elif why:
                 failing.append((c, canon, kind, "%s [%s build]" % (why, prof), o))
             if grp is not None and prof == "debug":
                 groups.setdefault(grp, set()).add(o.split(" ", 2)[2] if o.startswith("OK 0 ") else o)
@@ -168,7 +177,7 @@ def run(chk, replay=None):
             failing.append(("", None, "layout", "the same document parses differently under different layouts (group %d)" % grp, ""))
     if model is not None:
         for (c, canon, kind, grp), m in zip(cases, model):
-            if canon is not None and m != "OK 0 " + canon:
+            if canon is not None and m != "OK 0 " + canon and kind != "blank-only":
                 src_model.append((c, canon, kind, m))
     # the Coq printer against the Python printer
     tie = printer_tie(chk, rng, hb) if replay is None else None
@@ -190,6 +199,11 @@ def run(chk, replay=None):
                            [x.split(" ")[0] for x in canon.split("(")[1:] if x.split(" ")[0] in
                             ("include", "cpp_include", "namespace", "typedef", "const", "enum", "struct", "union", "exception", "service",
                              "fn", "field", "list", "set", "map", "ev", "double", "int", "str", "bool", "path")])))
+    for c, canon, kind, why, o in known[:1]:
+        chk.violation("C15 fails on the implementation: a layout of the empty document (blanks only) is rejected: " + why,
+                      dict(kind="case", case=c, case_kind=kind, expected=canon, impl_output=o[:300],
+                           text=bytes.fromhex(c.split(" ")[1]).decode("utf-8")), cls="blank-only-document")
+    chk.cov["known_finding_cases"] = len(known)
     seen = set()
     for c, canon, kind, why, o in failing:
         key = why.split("[")[0][:60]
@@ -208,6 +222,14 @@ def run(chk, replay=None):
         chk.violation("C15 fails on the implementation: " + why, d)
         if len(seen) >= 3:
             break
+    if tie and tie.get("impl_failures"):
+        f0 = tie["impl_failures"][0]
+        failing.append(("file " + ig.hx(f0["text"]), f0["expected"], "printer-tie-file",
+                        "a well-formed layout (wf_file = true in Print.v) was not read back by the implementation", f0["impl_output"]))
+        chk.violation("C15 fails on the implementation: a document printed from a well-formed concrete syntax tree was not read back "
+                      "(%d of the printer-tie documents)" % len(tie["impl_failures"]),
+                      dict(kind="case", case="file " + ig.hx(f0["text"]), case_kind="printer-tie-file", expected=f0["expected"],
+                           impl_output=f0["impl_output"], text=f0["text"][:3000]))
     if pending_translator:
         chk.violation(pending_translator[0], pending_translator[1], no_input=True)
     if not failing:
@@ -270,8 +292,45 @@ def printer_tie(chk, rng, hb=None):
             pbad += 1
             if res["mismatch"] is None:
                 res["mismatch"] = dict(text=t[:1000], tree=c[:1000], model_parse=a[:1000], impl_parse=b[:1000])
-    chk.cov["printer_tie"] = dict(cases=n, mismatches=bad, parse_mismatches=pbad, simple_types=simple,
+    chk.cov["printer_tie"] = dict(cases=n, mismatches=bad, parse_mismatches=pbad,
                                   what="Print.v pr_type / wf_type / erase_type (extracted) vs pv/idlgen.py text and tree on the same "
                                        "concrete syntax tree (types with blanks, comments, cpp_type, annotations); the text then parsed by "
-                                       "implementation and model; simple_types = cases inside the proved sub-grammar")
+                                       "implementation and model")
+    # whole documents: the object the theorem C15_roundtrip quantifies over
+    nf = 800 if chk.tier == "quick" else 20000
+    flines, fexp = [], []
+    for i in range(nf):
+        ser, text, canon = ig.gen_cst_file(rng)
+        flines.append("print-file " + ig.hx(ser))
+        fexp.append((text, canon))
+    fout = core.run_lines(FAM.runner, flines)
+    fbad = 0
+    for l, (t, c), o in zip(flines, fexp, fout):
+        if o != "TEXT %s WF true ERASE %s" % (ig.hx(t), c):
+            fbad += 1
+            if res["mismatch"] is None:
+                res["mismatch"] = dict(case=l[:3000], python_text=t[:1500], python_tree=c[:1500], coq_output=o[:3000])
+    fl = ["file " + ig.hx(t) for t, _ in fexp]
+    fm = core.run_lines(FAM.runner, fl)
+    fi = core.run_lines(hb, fl) if hb else fm
+    fpbad = 0
+    for (t, c), a, b in zip(fexp, fm, fi):
+        if b != "OK 0 " + c:
+            # the real parser does not read back a well-formed layout: a violation of C15 with a concrete document
+            res.setdefault("impl_failures", []).append(dict(text=t, expected=c, impl_output=b[:2000]))
+        if a != "OK 0 " + c or b != "OK 0 " + c:
+            fpbad += 1
+            if res["mismatch"] is None:
+                res["mismatch"] = dict(text=t[:1500], tree=c[:1500], model_parse=a[:1000], impl_parse=b[:1000])
+    sizes = [len(t.encode("utf-8")) for t, _ in fexp]
+    chk.cov["printer_tie_files"] = dict(cases=nf, mismatches=fbad, parse_mismatches=fpbad,
+                                        size_bytes=dict(max=max(sizes), total=sum(sizes)),
+                                        ends_with_unterminated_comment=sum(1 for t, _ in fexp if t and "\n" not in t[-1:] and
+                                                                           ("//" in t.split("\n")[-1] or "#" in t.split("\n")[-1])),
+                                        what="Print.v pr_file / wf_file / erase_file (extracted) vs the Python printer and tree on the same "
+                                             "concrete syntax tree of a WHOLE document (pv/idlgen.py CstGen: every production, every blank / "
+                                             "separator / quote / numeric-spelling slot, the normal form wf_file demands); texts byte-identical, "
+                                             "wf_file = true, erased tree = expected tree; the text then parsed by implementation and model")
+    for (t, c) in fexp[:1]:
+        chk.sample(dict(kind="printer-tie-file", text=t[:200], expected=c[:200]))
     return res
